@@ -319,6 +319,17 @@ theorem shortest_unit_free (p a b : Rat) (ha : 0 < a) (data : List Rat) :
       (shortestInt p data).map (fun r => (a * r.1 + b, a * r.2 + b)) :=
   shortestIntP_map_aff _ _ _ p a b ha data
 
+/-- **shortest_order_free**: `shortest_int` depends only on the multiset of samples — any reordering of the record (a time
+    reversal, a roll, a shuffle) gives the same interval and the same acceptance.  With `adc_is_quantise`, the ADC's full-scale
+    range is therefore a function of the amplitude histogram alone. -/
+theorem shortest_order_free (p : Rat) (data data' : List Rat) (h : data.Perm data') :
+    shortestInt p data = shortestInt p data' :=
+  shortestIntP_perm _ _ _ p h
+
+/-- non-vacuity: a record and its reversal -/
+example : shortestInt 50 [3, 1, 2, 10, 4, 5] = shortestInt 50 [5, 4, 10, 2, 1, 3] :=
+  shortest_order_free 50 _ _ (List.reverse_perm _).symm
+
 /-- **adc_unit_free_record**: the whole converter is unit-free — `ADC(a·x + b, otype='n')` returns the codes of `ADC(x)`,
     with the full-scale range converted (`a > 0`, any record with `V_min < V_max`) -/
 theorem adc_unit_free_record (signal : List Rat) (n : Nat) (a b : Rat) (ha : 0 < a) (r : AdcOut)
